@@ -35,17 +35,15 @@ def decodeRecord : List Nat → Option Rec
     else none
   | _ => none
 
-/-- split a scale section into records; `none` if the length is not a multiple of 10 or a record is malformed -/
-def decodeRecords (bytes : List Nat) : Option (List Rec) :=
-  go (bytes.length / 10 + 1) bytes
-where
-  go : Nat → List Nat → Option (List Rec)
-    | _, [] => some []
-    | 0, _ :: _ => none
-    | fuel + 1, bs@(_ :: _) =>
-      match decodeRecord (bs.take 10), go fuel (bs.drop 10) with
-      | some r, some rs => some (r :: rs)
-      | _, _ => none
+/-- split a scale section into 10-byte records; `none` if the length is not a multiple of 10 or a
+    record is malformed -/
+def decodeRecords : List Nat → Option (List Rec)
+  | [] => some []
+  | b0 :: b1 :: b2 :: b3 :: b4 :: s0 :: s1 :: s2 :: s3 :: sh :: rest =>
+    match decodeRecord [b0, b1, b2, b3, b4, s0, s1, s2, s3, sh], decodeRecords rest with
+    | some r, some rs => some (r :: rs)
+    | _, _ => none
+  | _ => none
 
 /-! ### which channels belong to which (core, slice) -/
 
